@@ -1,3 +1,4 @@
+\* 2 threads x 1 entity x 3 operations per thread, every outcome + reads
 CONSTANTS
   t1 = t1
   t2 = t2
@@ -6,16 +7,15 @@ CONSTANTS
   e2 = e2
   w1 = w1
   n1 = n1
-  Threads = {1,2,3}
-  Entities = {e1,e2}
+  Threads = {t1,t2}
+  Entities = {e1}
   WalEntities = {}
   NewEntities = {}
-  MaxOps = 2
+  MaxOps = 3
   Ops = {"ok","noop","reject","presave_fail","read"}
   LockMode = "write"
 SPECIFICATION Spec
 INVARIANT Safety
 PROPERTY AppendOnly
 CHECK_DEADLOCK TRUE
-SYMMETRY SymE
-ACTION_CONSTRAINT CsPriority
+SYMMETRY SymTE
